@@ -61,7 +61,8 @@ func prio(tx *transaction.Transaction) [3]int64 {
 	if hasAttr(tx, transaction.HighPriority) {
 		hp = 1
 	}
-	return [3]int64{hp, tx.FeePerByte(), tx.NetworkFee}
+	// the fee per byte is taken from the encoding, not from the transaction's own helper (the pool's comparator uses that one)
+	return [3]int64{hp, tx.NetworkFee / int64(len(tx.Bytes())), tx.NetworkFee}
 }
 
 func less(a, b [3]int64) bool {
